@@ -131,6 +131,13 @@ CLAIMED = {
              "Interpolation accuracy is not decided.",
         technique="parity-split affine-form evaluation (abstract interpretation), unit typing, order/accumulation structural rules on ast",
         ref="5 C14"),
+    "C15": dict(
+        text="Affine-form evaluation of both binning implementations proves the identity (pos + tr)/(scale*b) == (pos/scale - (b-1)/2)/b and the "
+             "scale update for every b, scale and position, and that the two siblings agree; symbolic evaluation of bin_image proves it keeps "
+             "b*(s//b) voxels per axis, reshapes to (s//b, b) pairs and sums exactly the within-block axes; a compute-tuple rule checks every "
+             "dask.compute call site; an effect analysis proves binning writes only to the fresh result. Numerical equality with block sums is not decided.",
+        technique="affine-form abstract interpretation over ast, sibling agreement, dask.compute tuple-use rule, effect analysis",
+        ref="5 C15"),
 }
 
 NOT_APPLICABLE = {
